@@ -3,6 +3,7 @@
 package centrifuge
 
 import (
+	"errors"
 	"fmt"
 	"sort"
 	"strings"
@@ -32,6 +33,29 @@ type connopsCfg struct {
 	delta      bool          // the actor subscribes with fossil delta (positioned channels)
 	bound      int           // deviation bound override for this scenario (0: the set's bound; -1: bound 0)
 	slowBroker bool          // Broker.Subscribe of connopsSlowCh takes 7 s of virtual time (op oslow holds the channel's subLock that long)
+	failLeave  bool          // the broker may fail PublishLeave (environment choice, one deviation per failure)
+	batch      bool          // per-channel batching for ch (MaxSize 1: every push goes through a channel writer)
+	failPresRm bool          // the presence manager may fail RemovePresence (environment choice)
+}
+
+// connopsPresence: the environment answer "the presence backend fails the removal".
+type connopsPresence struct{ PresenceManager }
+
+func (p connopsPresence) RemovePresence(ch string, clientID string, userID string) error {
+	if !vschedQuiet() && vsched.Choose(2) == 1 {
+		return errors.New("presence: i/o timeout")
+	}
+	return p.PresenceManager.RemovePresence(ch, clientID, userID)
+}
+
+// connopsLeaveBroker: the environment answer "the broker fails the leave publication".
+type connopsLeaveBroker struct{ Broker }
+
+func (b connopsLeaveBroker) PublishLeave(ch string, info *ClientInfo) error {
+	if !vschedQuiet() && vsched.Choose(2) == 1 {
+		return errors.New("broker: i/o timeout")
+	}
+	return b.Broker.PublishLeave(ch, info)
 }
 
 // connopsSlowBroker: the environment answer "the broker is slow": Subscribe for one channel
@@ -68,6 +92,15 @@ func (c connopsCfg) name() string {
 	}
 	if c.slowBroker {
 		n += "/slowbroker"
+	}
+	if c.failLeave {
+		n += "/leave-may-fail"
+	}
+	if c.batch {
+		n += "/batched"
+	}
+	if c.failPresRm {
+		n += "/presence-removal-may-fail"
 	}
 	return n
 }
@@ -124,6 +157,9 @@ func init() {
 	withDelta := func(x connopsCfg) connopsCfg { x.delta = true; return x }
 	withB := func(x connopsCfg, b int) connopsCfg { x.bound = b; return x }
 	withSlow := func(x connopsCfg) connopsCfg { x.slowBroker = true; return x }
+	withLeaveFail := func(x connopsCfg) connopsCfg { x.failLeave = true; return x }
+	withBatch := func(x connopsCfg) connopsCfg { x.batch = true; return x }
+	withPresFail := func(x connopsCfg) connopsCfg { x.failPresRm = true; return x }
 	connopsRegister(connopsSet{prop: "C04", qBound: 1, tBound: 2,
 		doc: "marker delivered to A iff A reports itself subscribed, at most once; exactly one hub routing entry with A's generation iff subscribed; none for a closed connection",
 		quick: []connopsCfg{
@@ -135,6 +171,9 @@ func init() {
 			// channel's first subscribe) beyond the 5 s wait gate of a client unsubscribe, then a retry and a
 			// fresh subscribe queue up behind it: no deviation needed, virtual time advances at quiescence
 			withB(withSlow(withH(c(false, false, false, "oslow", "nsub", "unsub,unsub,sub"), 8*time.Second)), -1),
+			// the subscription ends while the broker fails the leave publication; a batched channel is left and entered again
+			withLeaveFail(c(true, false, false, "unsub")), withLeaveFail(c(true, false, false, "nunsub")), withLeaveFail(c(true, false, false, "unsub,sub")),
+			withBatch(c(true, false, false, "unsub,sub")), withBatch(c(true, false, false, "nunsub,nsub")),
 		},
 		thor: []connopsCfg{
 			c(false, true, false, "sub,unsub", "nsub"), c(true, false, false, "unsub", "nsub", "disc"), c(false, true, true, "sub,unsub", "pub"),
@@ -159,6 +198,7 @@ func init() {
 	connopsRegister(connopsSet{prop: "C07", qBound: 1, tBound: 2,
 		doc: "observer's join/leave pushes for A alternate join,leave,...; a still-subscribed A ends with join, otherwise with leave or nothing; number of leaves equals the number of unsubscribe callbacks; number of joins equals the number of established subscriptions (ended + still open)",
 		quick: []connopsCfg{
+			withPresFail(c(true, false, false, "unsub")), withPresFail(c(true, false, false, "nunsub")), withPresFail(c(true, false, false, "close")), // the presence backend may fail the removal: the leave is still due
 			withB(withSlow(withH(c(false, false, false, "oslow", "nsub", "unsub,unsub,sub"), 8*time.Second)), -1), // see C04
 			c(false, true, false, "sub,unsub"), c(false, true, false, "sub", "disc"), c(false, false, false, "sub", "ndisc"), c(false, false, false, "nsub", "disc"),
 			c(false, false, false, "nsub", "nunsub"), c(false, true, false, "sub,close"), c(true, false, false, "unsub,sub", "disc"),
@@ -175,6 +215,7 @@ func init() {
 	connopsRegister(connopsSet{prop: "C05", qBound: 1, tBound: 2,
 		doc: "after A is closed and operations settle: no hub client/user/session entry, no routing entry, no presence entry, subscription and connection gauges back to the values before A connected",
 		quick: []connopsCfg{
+			withLeaveFail(c(true, false, false, "unsub")), withLeaveFail(c(true, false, false, "nunsub")), withLeaveFail(c(true, false, false, "close")), // the broker may fail the leave publication
 			withB(withSlow(withH(c(false, false, false, "oslow", "nsub", "unsub,unsub,sub"), 8*time.Second)), -1), // see C04
 			c(false, false, false, "sub", "disc"), c(false, true, false, "sub,close"), c(false, false, true, "sub", "ndisc"), c(false, false, false, "nsub", "disc"),
 			c(true, false, false, "tick", "disc"), c(true, true, false, "unsub,sub,close"), c(false, true, true, "sub", "disc"),
@@ -183,6 +224,7 @@ func init() {
 	connopsRegister(connopsSet{prop: "C08", qBound: 1, tBound: 2,
 		doc: "callback log: disconnect at most once and only after connect; no alive after disconnect; exactly one unsubscribe callback per established subscription that ended; none of A's callbacks before its connect callback",
 		quick: []connopsCfg{
+			withLeaveFail(c(true, false, false, "unsub")), withLeaveFail(c(true, false, false, "nunsub")), withLeaveFail(c(true, false, false, "close")), // the broker may fail the leave publication
 			withB(withSlow(withH(c(false, false, false, "oslow", "nsub", "unsub,unsub,sub"), 8*time.Second)), -1), // see C04
 			c(true, false, false, "tick", "disc"), c(false, false, false, "sub", "disc"), c(true, false, false, "unsub", "disc"), c(true, false, false, "nunsub", "close"),
 			c(true, false, false, "disc", "ndisc"), c(false, true, false, "sub,unsub"), c(true, false, false, "unsub", "nunsub"),
@@ -201,7 +243,16 @@ func connopsBody(cfg connopsCfg, prop string) func() {
 			vsched.Visible()
 			events = append(events, fmt.Sprintf(format, a...))
 		}
-		n := vNewNode(nil)
+		n := vNewNode(func(c *Config) {
+			if cfg.batch {
+				c.GetChannelBatchConfig = func(name string) ChannelBatchConfig {
+					if name == ch {
+						return ChannelBatchConfig{MaxSize: 1}
+					}
+					return ChannelBatchConfig{}
+				}
+			}
+		})
 		var actorID string
 		subOpts := func() SubscribeOptions {
 			o := SubscribeOptions{EmitPresence: cfg.presence, EmitJoinLeave: cfg.joinLeave, PushJoinLeave: true}
@@ -250,6 +301,12 @@ func connopsBody(cfg connopsCfg, prop string) func() {
 		if cfg.slowBroker {
 			n.SetBroker(connopsSlowBroker{Broker: n.broker, ch: connopsSlowCh})
 		}
+		if cfg.failLeave {
+			n.SetBroker(connopsLeaveBroker{Broker: n.broker})
+		}
+		if cfg.failPresRm {
+			n.SetPresenceManager(connopsPresence{PresenceManager: n.presenceManager})
+		}
 		if err := n.Run(); err != nil {
 			panic(err)
 		}
@@ -285,6 +342,9 @@ func connopsBody(cfg connopsCfg, prop string) func() {
 		}
 		if cfg.presub {
 			act.subscribe(ch)
+		}
+		if cfg.batch && cfg.presub {
+			publish("setup") // the channel writer of the connection exists from here on
 		}
 		vsched.WaitIdle()
 		vschedSetQuiet(false)
